@@ -37,6 +37,7 @@ from pynguin.testcase.execution_isolation import (
     OutputSuppressionContext,
     PatchRandomOnUnpickle,
     _make_deterministic,
+    preserve_logging_state,
     suppress_logging,
 )
 from pynguin.testcase.execution_observers import (
@@ -374,7 +375,7 @@ class TestCaseExecutor(AbstractTestCaseExecutor):
         stat.track_output_variable(RuntimeVariable.Executed, self._executed_test_cases)
         self._before_remote_test_case_execution(test_case)
 
-        with ter.ExecutionRecorder(test_case):
+        with ter.ExecutionRecorder(test_case), preserve_logging_state():
             output_suppression_context = OutputSuppressionContext()
             return_queue: Queue[ExecutionResult] = Queue()
             thread = threading.Thread(
